@@ -115,6 +115,12 @@ func (x *Exec) binop(op token.Token, tx, ty types.Type, a, b Value) Value {
 		if okA && okB {
 			return x.intBinConcrete(op, w, signed, ca, cb)
 		}
+		if x.nano != nil && w == 64 && signed {
+			// comparison of nanosecond counts with a known (seconds, nanoseconds) decomposition
+			if r, done := x.nanoCompare(op, a, b); done {
+				return r
+			}
+		}
 		return x.intBinSym(op, w, signed, x.toTerm(a, w), x.toTerm(b, w))
 	}
 	switch av := a.(type) {
@@ -777,7 +783,8 @@ func (x *Exec) conv(tdst, tsrc types.Type, v Value) Value {
 		if ws, ss, ok2 := intInfo(tsrc); ok2 {
 			n, isC := v.(uint64)
 			if !isC {
-				x.unsupported("float conversion of a symbolic integer")
+				// an opaque float: may be passed around (metrics calls) but any use of it is an engine error
+				return opaqueFloat{}
 			}
 			if ss {
 				f = float64(sext64(n, ws))
